@@ -40,9 +40,7 @@ pub(super) fn check_step(t: &mut VmGreenThread, mut model: Vec<Value>, dm: M, od
             assert!(can_err, "this arm has no error outcome in the specification");
             assert!(!cont, "arm must stop on a runtime error");
             assert!(err_code(t) == k, "documented error kind");
-            if can_err {
-                kani::cover!(true, "req: error outcome reachable");
-            }
+            kani::cover!(true, "reqr: error outcome reachable");
         }
     }
     assert!(t.pending_host_func.is_none() && !t.done);
